@@ -26,3 +26,5 @@ def run(prog, rep):
     _ru2.run_scale_positions(prog, rep)
     from ..rules import r_key as _rkx
     _rkx.run_handles_only(prog, rep)
+    from ..rules import r_flow as _rfa
+    _rfa.run_aligned(prog, rep)
